@@ -3,6 +3,7 @@
 #![allow(clippy::all)]
 #![allow(non_snake_case)]
 
+mod dump_grammar;
 mod dump_spirv;
 #[allow(unused_macros, dead_code)]
 mod gen;
@@ -21,6 +22,7 @@ fn main() {
     match args[1].as_str() {
         "dump-spirv" => dump_spirv::dump(&args[2], &args[3]),
         "sweep-spirv" => dump_spirv::sweep(&args[2]),
+        "dump-grammar" => dump_grammar::dump(&args[2]),
         other => {
             eprintln!("unknown command {}", other);
             std::process::exit(2);
